@@ -1,8 +1,9 @@
 """C02 -- a granted placement has exactly the requested shape."""
-from .c01 import SchedProp
+from .c01 import SchedProp, APP_TRUSTED, APP_RULE
+from .sides import Sides, Spec
 
 
-class C02(SchedProp):
+class C02Sched(SchedProp):
     id = 'C02'
     module = 'c02'
     props_files = ['Props/C02.v']
@@ -12,6 +13,16 @@ class C02(SchedProp):
     rule = ('random scheduler histories as for C01 (shapes: ranks 1-6, cores/rank 0-4 and oversize, GPU shares 1/4-3 '
             'and oversize, lfs/mem incl. oversize, ranks_per_node, colocate/exclusive tags) on reachable occupancy '
             'states; non-trivial = >= 2 tasks held simultaneously and >= 1 task waited')
+
+
+class C02(Sides, C02Sched):
+    # what Pilot.nodelist.find_slots(rr, n) hands to the application: exactly n slots of the shape of rr
+    side_specs = [Spec('app', 'appslots', ['shape'], only=lambda c: isinstance(c, dict) and c.get('kind') == 'seq')]
+    clauses = C02Sched.clauses + side_specs[0].clause_names()
+    extra_targets = C02Sched.extra_targets + ['AppSlots/Oracle.vo', 'AppSlots/Proofs.vo']
+    model_targets = C02Sched.model_targets + ['AppSlots/Oracle.vo']
+    trusted = C02Sched.trusted + [APP_TRUSTED]
+    rule = C02Sched.rule + '; ' + APP_RULE
 
 
 PROP = C02()
